@@ -15,7 +15,8 @@ def handlers : List (List String → Option String) := [
   Legacy.handleLeg,
   EncB.handleEncP,
   L2T.handleL2T,
-  World.handleHist
+  World.handleHist,
+  L2T.C03.handleSpec
 ]
 
 def handle (fields : List String) : String :=
